@@ -30,7 +30,6 @@ Definition sync_eqb (full : bool) (a b : sync_out) : bool :=
    nothing": both are observed as PSync (0, None, None) *)
 Definition post_match (full : bool) (m o : post) : bool :=
   match m, o with
-  | PStale, _ => true
   | PNone, PSync y => sync_eqb full (mkSync 0 None None) y
   | PSync y, PSync y' => sync_eqb full y y'
   | PBye, PBye => true
